@@ -191,6 +191,31 @@ pub fn drive_c06(a: &Args) {
             call_all(&mut out, &s2, &s2[pos..].to_vec(), &vec![], &is[..3], &is[..3]);
         }
     }
+    // anti-hash inputs: the Thue-Morse word and its letter-swapped complement have the same polynomial hash modulo
+    // 2^64 for every odd base from length 1024 on (a search that compares hashes instead of characters fails here
+    // and nowhere else); also periodic strings, where a wrong shift table of a skip-ahead search shows
+    {
+        let tm = |n: usize, flip: bool| -> Vec<u32> {
+            (0..n).map(|i| if ((i.count_ones() & 1) == 1) != flip { lb } else { la }).collect()
+        };
+        for &n in &[256usize, 1024] {
+            let (t, c) = (tm(n, false), tm(n, true));
+            let mut hay = vec![0x63, 0x63];
+            hay.extend(c.iter());
+            hay.push(0x63);
+            hay.extend(t.iter());
+            call_all(&mut out, &c, &t, &vec![0x58], &[0, 1], &[0]);
+            call_all(&mut out, &hay, &t, &vec![0x58], &[0, 2, 3], &[0]);
+            call_all(&mut out, &hay, &c, &vec![], &[0, 3], &[0]);
+        }
+        for p in [vec![la, lb], vec![la, la, lb], vec![la, lb, la]] {
+            let per: Vec<u32> = (0..40).map(|i| p[i % p.len()]).collect();
+            let mut pat = per[..p.len() * 3].to_vec();
+            call_all(&mut out, &per, &pat, &vec![0x58], &[0, 1, 5], &[0]);
+            pat.push(lb);
+            call_all(&mut out, &per, &pat, &vec![0x58], &[0, 1, 5], &[0]);
+        }
+    }
     // random strings over real code points
     let pool = [0u32, 1, 0x41, 0x42, 0xFFFF, 0x10000, MAX_CHAR - 1, MAX_CHAR, 0xD800, 0xDFFF, 0xFFFD];
     for _ in 0..a.sz(800, 15000) {
